@@ -12,12 +12,12 @@ from .. import gen, model as M, oracles as O, refmodel as R
 
 RULE = ("cases from rng(seed, 2, 0, i): a random graph of 1..40 edges over r2/r3/se2/se3 vertices (odometry + landmark edges with rotated "
         "offsets, hostile values: w<0 / w=0 quaternions, angles at +-pi, translations up to 1e4 (1e6 thorough), dense ill-conditioned or "
-        "singular PSD information); every edge's calc_error/calc_chi2 and the graph's calc_chi2 are compared with the reference model; "
+        "singular PSD information, scaled by 1e-14..1e12); every edge's calc_error/calc_chi2 and the graph's calc_chi2 are compared with the reference model; "
         "every 4th case is a consistent graph (measurements generated from the vertices by the reference model) checked for chi2=0 and "
-        "chi2>0 after perturbing one measurement; every 5th checks linearity in Omega on twin edges. distinct = fingerprint of the spec; "
+        "chi2>0 after perturbing one measurement; every 5th checks linearity in Omega on twin edges; every 8th case is an operand history on one live edge (estimate / pose / offset / information replaced or modified in place between calls). distinct = fingerprint of the spec; "
         "non-trivial = chi2 above 1e3 x rounding bound, or a consistent graph with >=3 edges.")
 REQ = ["eval:error-vs-reference", "eval:chi2-vs-eT-Omega-e", "eval:graph-chi2-is-sum", "eval:consistent-graph-chi2-zero", "eval:perturbed-measurement-chi2-positive",
-       "eval:chi2-linear-in-Omega", "eval:chi2-nonnegative-psd", "kind:odo-se3", "kind:lm-se3", "kind:lm-se2", "kind:lm-r2", "class:info:cross", "class:q:wneg", "class:landmark_offset_rotated"]
+       "eval:chi2-linear-in-Omega", "eval:chi2-nonnegative-psd", "kind:odo-se3", "kind:lm-se3", "kind:lm-se2", "kind:lm-r2", "class:info:cross", "class:info:tiny_scale", "class:info:huge_scale", "class:q:wneg", "class:landmark_offset_rotated", "history_steps"]
 PLAN = {
     "quick": {"cases": 6000, "soft_s": 60, "min_nontrivial": 1000, "require": REQ},
     "thorough": {"cases": 120000, "soft_s": 1100, "min_nontrivial": 10000, "require": REQ},
@@ -59,7 +59,7 @@ def hostile_graph(rng, maxexp, labels, consistent=False, nmax=40):
             else:
                 z, l = gen.pose(rng, k, maxexp)
                 labels |= l
-            info, li = gen.info(rng, R.CD[k], 1e8, scale_exp=3.0, psd=(not consistent and rng.random() < 0.15))
+            info, li = gen.info(rng, R.CD[k], 1e8, scale_exp=3.0, psd=(not consistent and rng.random() < 0.15), extreme_scale=True)
             labels |= li
             edges.append({"type": "odo", "ids": [a["id"], b["id"]], "info": info.tolist(), "est": z, "est_kind": k})
             labels.add("kind:odo-" + k)
@@ -79,7 +79,7 @@ def hostile_graph(rng, maxexp, labels, consistent=False, nmax=40):
                 z = R.vals(R.act(k, R.inv(k, R.oplus(k, live[a["id"]], offl)), live[b["id"]]))
             else:
                 z, l = gen.pose(rng, kp, maxexp)
-            info, li = gen.info(rng, R.CD[kp], 1e8, scale_exp=3.0, psd=(not consistent and rng.random() < 0.15))
+            info, li = gen.info(rng, R.CD[kp], 1e8, scale_exp=3.0, psd=(not consistent and rng.random() < 0.15), extreme_scale=True)
             labels |= li
             edges.append({"type": "lm", "ids": [a["id"], b["id"]], "info": info.tolist(), "est": z, "est_kind": kp, "off": off, "off_kind": k, "off_id": 0})
             labels.add("kind:lm-" + k)
@@ -88,7 +88,30 @@ def hostile_graph(rng, maxexp, labels, consistent=False, nmax=40):
     return {"vertices": vertices, "edges": edges}
 
 
+def history_case(ctx, i, rng):
+    from . import c01
+
+    typ, k = c01.EDGE_KINDS[(i // 8) % len(c01.EDGE_KINDS)]
+    e, spec = c01.make_edge(rng, typ, k, 3.0, set())
+    hist = []
+    for step in range(int(rng.integers(3, 7))):
+        with np.errstate(all="ignore"):
+            e.calc_error()
+            e.calc_chi2()
+        if rng.random() < 0.2:
+            e.information = gen.info(rng, np.asarray(e.information).shape[0], 1e4, scale_exp=2.0)[0]
+            hist.append("information:replace")
+        else:
+            hist.append(c01.mutate_operand(rng, e))
+        case = {"edge": spec, "history": list(hist), "poses": [M.fl(v.pose) for v in e.vertices], "estimate": M.fl(e.estimate)}
+        O.check_edge_error(ctx, e, "history", case=case)
+        ctx.count("history_steps")
+    ctx.nontrivial(gen.fingerprint({"spec": spec, "hist": hist}))
+
+
 def run_case(ctx, i, rng):
+    if i % 8 == 7:
+        return history_case(ctx, i, rng)
     maxexp = 4.0 if ctx.tier == "quick" else 6.0
     labels = set()
     consistent = (i % 4 == 3)
@@ -135,9 +158,11 @@ def run_case(ctx, i, rng):
         Om = np.asarray(e2["info"])
         lam_min = float(np.linalg.eigvalsh(Om).min())
         c2 = float(g2.calc_chi2())
-        # e changes by a vector of norm ~delta (rotated); chi2 >= lam_min * |e|^2 ; |e| >= 0.5*delta unless the angle wraps
-        ctx.check("perturbed-measurement-chi2-positive", c2 >= 0.2 * lam_min * delta * delta and c2 > 1e3 * tot_bound, {"edge": e2["type"], "kind": e2["est_kind"]},
-                  {"chi2_after": c2, "lam_min": lam_min, "component": comp}, {"graph": spec2})
+        c2_edge = float(g2._edges[j].calc_chi2())
+        # e changes by a vector of norm ~delta (rotated); chi2_edge >= lam_min * |e|^2 ; |e| >= 0.5*delta unless the angle wraps.
+        # (decided on the perturbed edge's own chi2: other edges may carry information 1e20 times larger, whose rounding residue would swamp it in the sum)
+        ctx.check("perturbed-measurement-chi2-positive", c2_edge >= 0.2 * lam_min * delta * delta and c2 >= c2_edge - tot_bound, {"edge": e2["type"], "kind": e2["est_kind"]},
+                  {"chi2_after": c2, "chi2_edge_after": c2_edge, "lam_min": lam_min, "component": comp}, {"graph": spec2})
         if ne >= 3:
             ctx.nontrivial(gen.fingerprint(spec))
     else:
@@ -148,8 +173,8 @@ def run_case(ctx, i, rng):
         j = int(rng.integers(ne))
         e = g._edges[j]
         n = np.asarray(e.information).shape[0]
-        O1, _ = gen.info(rng, n, 1e4, scale_exp=2.0)
-        O2, _ = gen.info(rng, n, 1e4, scale_exp=2.0)
+        O1, _ = gen.info(rng, n, 1e4, scale_exp=2.0, extreme_scale=True)
+        O2, _ = gen.info(rng, n, 1e4, scale_exp=2.0, extreme_scale=True)
         a, b = float(10 ** rng.uniform(-2, 2)), float(10 ** rng.uniform(-2, 2))
         keep = e.information
         vals = []
@@ -163,3 +188,12 @@ def run_case(ctx, i, rng):
         bound = a * O.chi2_bound(er, O1, s) + b * O.chi2_bound(er, O2, s) + O.chi2_bound(er, a * O1 + b * O2, s)
         ctx.close("chi2-linear-in-Omega", vals[2], a * vals[0] + b * vals[1], bound, O.edge_features(e), {"a": a, "b": b}, case)
     ctx.sample({"vertices": spec["vertices"][:3], "edges": [{k: v for k, v in e.items() if k != "info"} for e in spec["edges"][:2]], "n_edges": ne, "consistent": consistent}, cap=2)
+
+
+def extra_stage(tier, seed, tmp):
+    """thorough tier: the repository's own test-suite as a workload under this property's monitors."""
+    if tier != "thorough":
+        return None
+    from ..runner import suite_under_monitors
+
+    return suite_under_monitors("C02", seed, tmp)
